@@ -7,7 +7,7 @@ from harness.common.watchdog import time_limit, Timeout
 
 ID = "C12"
 MANIFEST = {
-    "text": "Lean 4 theorems (Props/C12.lean; incl. encode_append / decode_append: both maps are homomorphisms at symbol boundaries) over an exact model of ppm.PPM_ENCODER/PPM_DECODER/HDD/SDD and utils.dec2bin, "
+    "text": "Lean 4 theorems (Props/C12.lean; incl. encode_append / decode_append: both maps are homomorphisms at symbol boundaries; hdd_idempotent) over an exact model of ppm.PPM_ENCODER/PPM_DECODER/HDD/SDD and utils.dec2bin, "
             "unbounded (every order, every length, every bit list, every pick oracle obeying numpy's contract, every linearly "
             "ordered sample type): one-hot block at the big-endian value per k-bit row; decoder(encoder(b)) = b truncated to whole "
             "symbols; encoder(decoder(c)) = c on valid codewords (bijection); HDD output is a valid codeword, leaves one-ON "
@@ -477,6 +477,14 @@ def _hdd_once(case, path):
         np.random.randint, np.random.choice = orig_r, orig_c
         np.random.set_state(state)
     res["draws"] = draws
+    # deciding twice (theorem hdd_idempotent): the result of an accepted call goes through HDD again, with the library's own
+    # random source (state saved and restored: a valid codeword needs no draw at all)
+    if res.get("status") == "ok" and res.get("bits"):
+        st2 = np.random.get_state()
+        try:
+            res["again"] = _guard(HDD, [int(c) for c in res["bits"]], case["M"])
+        finally:
+            np.random.set_state(st2)
     return res
 
 
@@ -772,6 +780,11 @@ def _oracle_hdd(case, r, M):
             v.append(("C12:hdd-keeps-on", f"HDD({slots!r},{M}) symbol {i}: {s!r} -> {o!r}: the kept slot was not ON{how}"))
         if len(v) > 3:
             break
+    ag = r.get("again")
+    if ag is not None and not v:
+        if ag["status"] != "ok" or ag.get("bits") != out:
+            v.append(("C12:hdd-idempotent", f"HDD(HDD({slots!r},{M}),{M}) = {ag.get('bits', ag.get('exc'))!r:.80}, but the first result "
+                                            f"{out!r:.80} is a valid codeword and must come back unchanged{how}"))
     return v
 
 
